@@ -186,4 +186,7 @@ bool drv_arg_done(generator<int, int> *g) { return g->done(); }
 bool drv_arg_not(generator<int, int>::next_awt *n) { return !*n; }
 bool drv_nawt_ready(generator<int>::next_awt *n) { return n->await_ready(); }
 bool drv_nawt_subscribe(generator<int>::next_awt *n, awaiter *a) { return n->subscribe(a); }
+void drv_gen_begin(generator_iterator<generator<int> > *out, generator<int> *g) { new(out) generator_iterator<generator<int> >(g->begin()); }
+void drv_gen_end(generator_iterator<generator<int> > *out, generator<int> *g) { new(out) generator_iterator<generator<int> >(g->end()); }
+void drv_arg_call_lvalue(future<int> *out, generator<int, int> *g, int *x) { new(out) future<int>((*g)(*x)); }
 }
